@@ -17,7 +17,8 @@ VERIF = os.path.dirname(os.path.dirname(os.path.abspath(__file__)))
 REPO = os.environ.get("VERIF_REPO", "/repo")
 COQ = os.path.join(VERIF, "coq")
 OUT = os.path.join(VERIF, "out")
-BIN = os.path.join(OUT, "bin", "vharness")
+EVID = os.environ.get("VERIF_EVIDENCE_DIR", os.path.join(VERIF, "evidence"))
+BIN = os.path.join(OUT, "bin", "vharness" + ("" if os.path.realpath(REPO) == "/repo" else "-alt"))
 COQ_DIRS = ["base", "gen", "A", "B", "C", "corr", "props"]
 QFLAGS = sum((["-Q", os.path.join(COQ, d), "Verif"] for d in COQ_DIRS), [])
 WFLAGS = ["-w", "-notation-overridden,-deprecated-hint-without-locality,-deprecated-syntactic-definition"]
@@ -108,7 +109,15 @@ def build_harness():
     src = os.path.join(VERIF, "harness")
     shutil.copyfile(os.path.join(REPO, "go.sum"), os.path.join(src, "go.sum"))
     os.makedirs(os.path.dirname(BIN), exist_ok=True)
-    rc, out = run(["go", "build", "-tags", "verif", "-o", BIN, "."], cwd=src, env=GOENV, timeout=1200)
+    cmd = ["go", "build", "-tags", "verif", "-o", BIN]
+    if os.path.realpath(REPO) != "/repo":
+        # testing against a scratch copy of the repository: same module file, other replace target
+        alt = os.path.join(src, "go.alt.mod")
+        with open(alt, "w") as f:
+            f.write(open(os.path.join(src, "go.mod")).read().replace("=> /repo", "=> " + os.path.realpath(REPO)))
+        shutil.copyfile(os.path.join(REPO, "go.sum"), os.path.join(src, "go.alt.sum"))
+        cmd += ["-modfile", alt]
+    rc, out = run(cmd + ["."], cwd=src, env=GOENV, timeout=1200)
     return rc == 0, out
 
 
@@ -181,8 +190,8 @@ def eval_shards(outdir, timeout_each=1800):
 
 
 def write_evidence(pid, ev):
-    os.makedirs(os.path.join(VERIF, "evidence"), exist_ok=True)
-    p = os.path.join(VERIF, "evidence", pid + ".json")
+    os.makedirs(EVID, exist_ok=True)
+    p = os.path.join(EVID, pid + ".json")
     tmp = p + ".tmp%d" % os.getpid()
     with open(tmp, "w") as f:
         json.dump(ev, f, indent=1, sort_keys=True)
@@ -257,7 +266,7 @@ def main():
         tier = "quick"
     seed = int(os.environ.get("VERIF_SEED", "1") or "1")
     n = cfg["n_" + tier]
-    outdir = os.path.join(OUT, pid, "%s-%d" % (tier, seed))
+    outdir = os.path.join(OUT, pid, "%s-%d%s" % (tier, seed, "" if os.path.realpath(REPO) == "/repo" else "-alt"))
     os.makedirs(outdir, exist_ok=True)
     known = load_known()
     broken = []      # (kind, name, detail)
